@@ -87,9 +87,13 @@ pub fn type_cast<Data: GarnishData>(this: &mut Data) -> Result<Option<Data::Size
             this.end_list(list_index).and_then(|r| this.push_register(r))?
         }
         (GarnishDataType::Range, GarnishDataType::List) => {
-            let (start, end) = this.get_range(left.clone())?;
-            let len = end - start + Data::Size::one();
-            let (start, end, _) = get_range(this, left)?;
+            let (start, end, len) = get_range(this, left)?;
+            // the list has one item per number from start to end, none when the range is empty or reversed
+            let len = if start <= end {
+                <Data as GarnishData>::DataFactory::number_to_size(len).or_num_err()?
+            } else {
+                Data::Size::zero()
+            };
             let mut count = start;
 
             let mut list_index = this.start_list(len)?;
